@@ -51,7 +51,7 @@ uninterp spec fn f64_of_bits(b: u64) -> f64;
 
 // a list of u32 words in an image, and reading word i of a payload (same pair as the HLL coupon / theta list codecs)
 spec fn enc_u32s(s: Seq<u32>) -> Seq<u8> decreases s.len() { if s.len() == 0 { Seq::empty() } else { enc_u32s(s.drop_last()) + le32_bytes(s.last()) } }
-spec fn dec_u32_at(p: Seq<u8>, i: int) -> u32 { le32_val(p.subrange(4 * i, 4 * i + 4)) }
+#[verifier::opaque] spec fn dec_u32_at(p: Seq<u8>, i: int) -> u32 { le32_val(p.subrange(4 * i, 4 * i + 4)) }
 spec fn dec_u32s(p: Seq<u8>, n: int) -> Seq<u32> { Seq::new(n as nat, |i: int| dec_u32_at(p, i)) }
 proof fn lemma_enc_u32s_len(s: Seq<u32>) ensures enc_u32s(s).len() == 4 * s.len() decreases s.len() {
     if s.len() > 0 { lemma_enc_u32s_len(s.drop_last()); lemma_le32_roundtrip(s.last()); }
@@ -64,6 +64,7 @@ proof fn lemma_dec_enc_u32s(s: Seq<u32>, tail: Seq<u8>, i: int)
   ensures dec_u32_at(enc_u32s(s) + tail, i) == s[i]
   decreases s.len()
 {
+    reveal(dec_u32_at);
     lemma_enc_u32s_len(s); lemma_enc_u32s_len(s.drop_last()); lemma_le32_roundtrip(s.last());
     let e = enc_u32s(s) + tail;
     if i == s.len() - 1 {
@@ -76,7 +77,7 @@ proof fn lemma_dec_enc_u32s(s: Seq<u32>, tail: Seq<u8>, i: int)
 proof fn lemma_dec_enc_u32s_all(s: Seq<u32>, tail: Seq<u8>)
   ensures dec_u32s(enc_u32s(s) + tail, s.len() as int) == s
 {
-    assert forall|i: int| 0 <= i < s.len() implies dec_u32_at(enc_u32s(s) + tail, i) == s[i] by { lemma_dec_enc_u32s(s, tail, i); }
+    assert forall|i: int| 0 <= i < s.len() implies #[trigger] dec_u32_at(enc_u32s(s) + tail, i) == s[i] by { lemma_dec_enc_u32s(s, tail, i); }
     assert(dec_u32s(enc_u32s(s) + tail, s.len() as int) =~= s);
 }
 // the cursor after `pos` bytes: reading n bytes at pos
@@ -92,7 +93,14 @@ proof fn lemma_word_at(b: Seq<u8>, base: int, i: int)
   requires 0 <= base, 0 <= i, base + 4 * i + 4 <= b.len()
   ensures dec_u32_at(b.skip(base), i) == le32_val(b.subrange(base + 4 * i, base + 4 * i + 4))
 {
+    reveal(dec_u32_at);
     assert(b.skip(base).subrange(4 * i, 4 * i + 4) =~= b.subrange(base + 4 * i, base + 4 * i + 4));
+}
+proof fn lemma_dec_u32s_push(p: Seq<u8>, i: int)
+  requires 0 <= i
+  ensures dec_u32s(p, i + 1) == dec_u32s(p, i).push(dec_u32_at(p, i)), dec_u32s(p, i).len() == i
+{
+    assert(dec_u32s(p, i + 1) =~= dec_u32s(p, i).push(dec_u32_at(p, i)));
 }
 
 // =====================================================================================================================
@@ -518,6 +526,845 @@ fn make_preamble_ints(
         }
     }
     preamble_ints
+}
+
+
+// =====================================================================================================================
+// cpc/pair_table.rs: the table invariant (definitions VERBATIM from contracts/cpc_pairtable.rs, where lookup / must_insert /
+// maybe_insert / maybe_delete / rebuild are proved against them); `new` and `must_insert` are by contract here.
+// =====================================================================================================================
+const UPSIZE_NUMERATOR: u32 = 3;
+const UPSIZE_DENOMINATOR: u32 = 4;
+const EMPTY: u32 = 0xffff_ffff;
+
+struct PairTable {
+    lg_size: u8,
+    num_valid_bits: u8,
+    num_items: u32,
+    slots: Vec<u32>,
+}
+
+spec fn probe_at(p0: int, s: int, j: int, size: int) -> int { (p0 + j * s) % size }
+spec fn phome(item: u32, nvb: u8, lg: u8) -> int { (item >> ((nvb - lg) as u32)) as int }
+spec fn ppos(item: u32, nvb: u8, lg: u8, j: int, size: int) -> int { probe_at(phome(item, nvb, lg), 1, j, size) }
+spec fn pocc(ss: Seq<u32>) -> Set<int> { Set::range(0, ss.len() as int).filter(|i: int| ss[i] != EMPTY) }
+spec fn pfull_before(ss: Seq<u32>, item: u32, nvb: u8, lg: u8, j: int) -> bool {
+    forall|t: int| 0 <= t < j ==> ss[#[trigger] ppos(item, nvb, lg, t, ss.len() as int)] != EMPTY
+}
+spec fn preach_at(ss: Seq<u32>, nvb: u8, lg: u8, i: int) -> bool {
+    exists|j: int| 0 <= j < ss.len() && i == ppos(ss[i], nvb, lg, j, ss.len() as int) && #[trigger] pfull_before(ss, ss[i], nvb, lg, j)
+}
+spec fn pshape(ss: Seq<u32>, nvb: u8, lg: u8) -> bool { 2 <= lg <= 26 && lg < nvb <= 32 && ss.len() == pow2(lg as nat) }
+spec fn ptbl_ok(ss: Seq<u32>, nvb: u8, lg: u8) -> bool {
+    &&& pshape(ss, nvb, lg)
+    &&& forall|i: int| 0 <= i < ss.len() && ss[i] != EMPTY ==> (#[trigger] ss[i] as int) < pow2(nvb as nat)
+    &&& forall|i: int, j: int| 0 <= i < ss.len() && 0 <= j < ss.len() && i != j && ss[i] != EMPTY ==> ss[i] != ss[j]
+    &&& forall|i: int| 0 <= i < ss.len() && ss[i] != EMPTY ==> #[trigger] preach_at(ss, nvb, lg, i)
+}
+spec fn pholds(ss: Seq<u32>, item: u32) -> bool { exists|i: int| 0 <= i < ss.len() && ss[i] == item }
+
+impl PairTable {
+    spec fn wf(&self) -> bool {
+        &&& ptbl_ok(self.slots@, self.num_valid_bits, self.lg_size)
+        &&& self.num_items == pocc(self.slots@).len()
+        &&& 4 * self.num_items <= 3 * self.slots@.len()
+    }
+    spec fn items(&self) -> ISet<u32> { ISet::new(|c: u32| c != EMPTY && pholds(self.slots@, c)) }
+
+    // by contract (the asserts of the real body are the precondition; `vec![u32::MAX; 1 << lg_size]`)
+    #[verifier::external_body]
+    fn new(lg_size: u8, num_valid_bits: u8) -> (r: Self)
+      requires 2 <= lg_size <= 26, lg_size + 1 <= num_valid_bits <= 32
+      ensures r.lg_size == lg_size, r.num_valid_bits == num_valid_bits, r.num_items == 0,
+        r.slots@.len() == pow2(lg_size as nat), forall|i: int| 0 <= i < r.slots@.len() ==> r.slots@[i] == EMPTY,
+    { unimplemented!() }
+
+    // contract VERBATIM from the one PROVED in contracts/cpc_pairtable.rs
+    #[verifier::external_body]
+    fn must_insert(&mut self, item: u32)
+      requires pshape(old(self).slots@, old(self).num_valid_bits, old(self).lg_size), (item as int) < pow2(old(self).num_valid_bits as nat), item != EMPTY,
+        !pholds(old(self).slots@, item),
+        pocc(old(self).slots@).len() < old(self).slots@.len(),   // an empty slot exists
+      ensures ptbl_ok(old(self).slots@, old(self).num_valid_bits, old(self).lg_size) ==> ptbl_ok(final(self).slots@, final(self).num_valid_bits, final(self).lg_size),
+        final(self).lg_size == old(self).lg_size, final(self).num_valid_bits == old(self).num_valid_bits, final(self).num_items == old(self).num_items,
+        exists|idx: int| 0 <= idx < old(self).slots@.len() && old(self).slots@[idx] == EMPTY && final(self).slots@ == #[trigger] old(self).slots@.update(idx, item)
+            && exists|j: int| 0 <= j < old(self).slots@.len() && idx == ppos(item, old(self).num_valid_bits, old(self).lg_size, j, old(self).slots@.len() as int) && #[trigger] pfull_before(old(self).slots@, item, old(self).num_valid_bits, old(self).lg_size, j),
+    { unimplemented!() }
+}
+
+// =====================================================================================================================
+// cpc/mod.rs, cpc/sketch.rs: flavor / offset as functions of (lg_k, C); the sketch invariant wf() (definitions VERBATIM from
+// contracts/cpc_update.rs, over the real PairTable invariant above)
+// =====================================================================================================================
+enum Flavor {
+    Empty,   //    0  == C <    1
+    Sparse,  //    1  <= C <   3K/32
+    Hybrid,  // 3K/32 <= C <   K/2
+    Pinned,  //   K/2 <= C < 27K/8  [NB: 27/8 = 3 + 3/8]
+    Sliding, // 27K/8 <= C
+}
+spec fn flavor_spec(lg_k: u8, c: u32) -> Flavor {
+    let k = pow2(lg_k as nat) as int; let c = c as int;
+    if c == 0 { Flavor::Empty } else if 32 * c < 3 * k { Flavor::Sparse } else if 2 * c < k { Flavor::Hybrid } else if 8 * c < 27 * k { Flavor::Pinned } else { Flavor::Sliding }
+}
+spec fn dco(lg_k: u8, c: u32) -> int { let k = pow2(lg_k as nat) as int; if 8 * (c as int) < 19 * k { 0 } else { (8 * (c as int) - 19 * k) / (8 * k) } }
+
+// real body; contract and proof as in contracts/cpc_update.rs
+fn determine_correct_offset(lg_k: u8, num_coupons: u32) -> (r: u8)
+  requires 4 <= lg_k <= 26
+  ensures dco(lg_k, num_coupons) <= 255 ==> r == dco(lg_k, num_coupons)
+{
+    proof {
+        lemma_shl_i64(lg_k); lemma_shl_i64((lg_k + 3) as u8); lemma_pow2_adds(3, lg_k as nat); lemma2_to64();
+        let c = num_coupons as i64;
+        assert(0 <= c <= 0xffff_ffff ==> (c << 3) == c * 8) by (bit_vector);
+    }
+    let k = 1 << lg_k;
+    let tmp = ((num_coupons as i64) << 3) - (19 * k); // 8C - 19K
+    if tmp < 0 {
+        0
+    } else {
+        proof { lemma_shr_i64(tmp, (lg_k + 3) as u8); }
+        (tmp >> (lg_k + 3)) as u8 // tmp / 8K
+    }
+}
+proof fn lemma_shl_i64(l: u8) requires l <= 29 ensures (1i64 << l) == pow2(l as nat), 1 <= pow2(l as nat) <= 0x2000_0000 {
+    lemma2_to64(); if l < 29 { lemma_pow2_strictly_increases(l as nat, 29); } lemma_pow2_pos(l as nat);
+    let u = l as u64;
+    vstd::bits::lemma_u64_shl_is_mul(1, u);
+    assert(u <= 29 ==> (1u64 << u) < 0x4000_0000u64) by (bit_vector);
+    assert(l <= 29 ==> (1i64 << l) == ((1u64 << (l as u64)) as i64)) by (bit_vector);
+}
+proof fn lemma_shr_i64(t: i64, s: u8) requires 0 <= t, s <= 29 ensures (t >> s) == (t as int) / (pow2(s as nat) as int) {
+    let u = t as u64; let su = s as u64;
+    vstd::bits::lemma_u64_shr_is_div(u, su);
+    assert(t >= 0 && s <= 29 ==> (t >> s) == ((t as u64) >> (s as u64)) as i64) by (bit_vector);
+}
+proof fn lemma_k_bound(l: u8) requires 4 <= l <= 26 ensures 16 <= pow2(l as nat) <= 0x400_0000 {
+    lemma2_to64(); if l < 26 { lemma_pow2_strictly_increases(l as nat, 26); } if l > 4 { lemma_pow2_strictly_increases(4, l as nat); }
+}
+
+struct CpcSketch {
+    // immutable config variables
+    lg_k: u8,
+    seed: u64,
+    seed_hash: u16,
+
+    // sketch state
+    /// Part of a speed optimization.
+    first_interesting_column: u8,
+    /// The number of coupons collected so far.
+    num_coupons: u32,
+    /// Sparse and surprising values.
+    surprising_value_table: Option<PairTable>,
+    /// Derivable from num_coupons, but made explicit for speed.
+    window_offset: u8,
+    /// Size K bytes in dense mode (flavor >= HYBRID).
+    sliding_window: Vec<u8>,
+
+    // estimator state
+    /// Whether the sketch is a result of merging.
+    ///
+    /// If `false`, the HIP (Historical Inverse Probability) estimator is used.
+    /// If `true`, the ICON (Inter-Column Optimal) Estimator is fallback in use.
+    merge_flag: bool,
+    // the following variables are only valid in HIP estimator
+    /// A pre-calculated probability factor (`k * p`) used to compute the increment delta.
+    kxp: f64,
+    /// The accumulated cardinality estimate.
+    hip_est_accum: f64,
+}
+
+spec fn rc(row: int, col: int) -> u32 { ((row as u32) << 6) | (col as u32) }
+spec fn bit8(x: u8, c: int) -> bool { (x >> (c as u8)) & 1 == 1 }
+
+// cpc/compression.rs: the compressed state; its view
+struct CompressedState {
+    table_data: Vec<u32>,
+    table_data_words: usize,
+    // can be different from the number of entries in the sketch in hybrid mode
+    table_num_entries: u32,
+    window_data: Vec<u32>,
+    window_data_words: usize,
+}
+struct UncompressedState {
+    table: PairTable,
+    window: Vec<u8>,
+}
+ghost struct CsView { table: Seq<u32>, table_words: int, num_entries: u32, window: Seq<u32>, window_words: int }
+spec fn cs_default() -> CsView { CsView { table: Seq::empty(), table_words: 0, num_entries: 0, window: Seq::empty(), window_words: 0 } }
+// what the compressor is ASSUMED to deliver (from its debug_asserts and the buffer discipline of low_level_compress_*):
+spec fn compress_shape(fl: Flavor, c: CsView) -> bool {
+    &&& 0 <= c.table_words <= c.table.len() && 0 <= c.window_words <= c.window.len()
+    &&& c.table_words <= 0xffff_ffff && c.window_words <= 0xffff_ffff
+    &&& fl is Empty ==> c == cs_default()
+    &&& (fl is Sparse || fl is Hybrid) ==> c.window.len() == 0 && c.table.len() > 0
+    &&& (fl is Pinned || fl is Sliding) ==> c.window.len() > 0
+}
+uninterp spec fn compressed_of(s: CpcSketch) -> CsView;
+uninterp spec fn uncompressed_of(c: CsView, lg_k: u8, num_coupons: u32) -> UncompressedState;
+// the state a parsed image hands to the decompressor
+spec fn cs_of(b: Seq<u8>) -> CsView {
+    CsView { table: fld_table(b), table_words: fld_sv_len(b) as int, num_entries: fld_num_sv(b), window: fld_window(b), window_words: fld_w_len(b) as int }
+}
+// what the decompressor's debug_asserts demand of the flags, per flavor
+spec fn cs_flavor_ok(fl: Flavor, c: CsView) -> bool {
+    &&& (fl is Sparse || fl is Hybrid) ==> c.window.len() == 0 && c.table.len() > 0
+    &&& (fl is Pinned || fl is Sliding) ==> c.window.len() > 0 && (c.num_entries > 0 ==> c.table.len() > 0)
+}
+
+impl CompressedState {
+    spec fn cview(&self) -> CsView {
+        CsView { table: self.table_data@, table_words: self.table_data_words as int, num_entries: self.table_num_entries, window: self.window_data@, window_words: self.window_data_words as int }
+    }
+    // #[derive(Default)]
+    #[verifier::external_body]
+    fn default() -> (r: Self) ensures r.cview() == cs_default() { unimplemented!() }
+
+    // OPAQUE (FM85 entropy coder).  Assumed: deterministic in the sketch; fills the five fields with the shape above.
+    #[verifier::external_body]
+    fn compress(&mut self, source: &CpcSketch)
+      requires old(self).cview() == cs_default(), 4 <= source.lg_k <= 26,
+      ensures final(self).cview() == compressed_of(*source), compress_shape(flavor_spec(source.lg_k, source.num_coupons), final(self).cview()),
+    { unimplemented!() }
+
+    // OPAQUE (FM85 entropy decoder).  The preconditions are what its body needs from the PARSER not to panic / over-allocate; the
+    // postconditions are what a correct decoder delivers when it returns.
+    #[verifier::external_body]
+    fn uncompress(&self, lg_k: u8, num_coupons: u32) -> (r: UncompressedState)
+      requires
+        4 <= lg_k <= 26,
+        /*@C14.cpc.uncompress.words*/ self.table_data_words <= self.table_data@.len() && self.window_data_words <= self.window_data@.len(),
+        // debug_assert!s of uncompress_*_flavor; in release `words[0]` of an empty vec is read
+        /*@C14.cpc.uncompress.flags_vs_flavor*/ cs_flavor_ok(flavor_spec(lg_k, num_coupons), self.cview()),
+        // `k + num_pairs` (u32) in uncompress_surprising_values
+        /*@C14.cpc.uncompress.pairs_u32*/ !(flavor_spec(lg_k, num_coupons) is Empty) ==> pow2(lg_k as nat) + self.table_num_entries <= 0xffff_ffff,
+        // `vec![0; num_pairs]` and the decode loop are driven by table_num_entries; every pair consumes at least 2 bits of table_data
+        /*@C14.cpc.uncompress.alloc_pairs*/ !(flavor_spec(lg_k, num_coupons) is Empty) ==> 2 * self.table_num_entries <= 32 * self.table_data_words,
+        // every window byte consumes at least 1 bit of window_data (`words[*word_index]` is unchecked)
+        /*@C14.cpc.uncompress.window_bits*/ (flavor_spec(lg_k, num_coupons) is Pinned || flavor_spec(lg_k, num_coupons) is Sliding) ==> pow2(lg_k as nat) <= 32 * self.window_data_words,
+        // `assert!(offset <= 56)` in uncompress_sliding_flavor
+        /*@C14.cpc.uncompress.offset*/ flavor_spec(lg_k, num_coupons) is Sliding && self.table_num_entries > 0 ==> dco(lg_k, num_coupons) <= 56,
+      ensures
+        r == uncompressed_of(self.cview(), lg_k, num_coupons),
+        r.table.wf(), r.table.num_valid_bits == 6 + lg_k,
+        r.window@.len() == (if flavor_spec(lg_k, num_coupons) is Empty || flavor_spec(lg_k, num_coupons) is Sparse { 0 } else { pow2(lg_k as nat) as int }),
+        flavor_spec(lg_k, num_coupons) is Empty ==> r.table.num_items == 0,
+        flavor_spec(lg_k, num_coupons) is Sparse ==> r.table.num_items == self.table_num_entries,
+        // pinned: `+= 8` after `assert!(col < 56)`; sliding: permutation into [0,56) then rotation by offset + 8; hybrid: columns < 8 go to the window
+        dco(lg_k, num_coupons) <= 56 && r.window@.len() != 0 ==> forall|x: u32| r.table.items().contains(x) ==> !(dco(lg_k, num_coupons) <= (x & 63) < dco(lg_k, num_coupons) + 8),
+    { unimplemented!() }
+}
+
+impl CpcSketch {
+    spec fn k(&self) -> int { pow2(self.lg_k as nat) as int }
+    spec fn tbl(&self) -> ISet<u32> { if self.surprising_value_table is Some { self.surprising_value_table->0.items() } else { ISet::empty() } }
+    spec fn mbit(&self, row: int, col: int) -> bool {
+        let off = self.window_offset as int;
+        if self.sliding_window@.len() != 0 && off <= col < off + 8 { bit8(self.sliding_window@[row], col - off) }
+        else if col < off { !self.tbl().contains(rc(row, col)) }
+        else { self.tbl().contains(rc(row, col)) }
+    }
+    // wf_matrix of cpc_update, clause by clause
+    spec fn wf_lgk(&self) -> bool { 4 <= self.lg_k <= 26 }
+    spec fn wf_offset(&self) -> bool { self.window_offset <= 56 }
+    spec fn wf_window_len(&self) -> bool { self.sliding_window@.len() == 0 || self.sliding_window@.len() == self.k() }
+    spec fn wf_table(&self) -> bool { self.num_coupons != 0 ==> self.surprising_value_table is Some && self.surprising_value_table->0.wf() }
+    spec fn wf_rows(&self) -> bool { self.num_coupons != 0 ==> forall|x: u32| #[trigger] self.tbl().contains(x) ==> (x >> 6) < self.k() }
+    spec fn wf_window_cols(&self) -> bool {
+        self.num_coupons != 0 && self.sliding_window@.len() != 0 ==> forall|x: u32| self.tbl().contains(x) ==> !(self.window_offset <= (x & 63) < self.window_offset + 8)
+    }
+    spec fn wf_empty(&self) -> bool {
+        self.num_coupons == 0 ==> self.window_offset == 0 && self.sliding_window@.len() == 0 && (self.surprising_value_table is Some ==> self.tbl() =~= ISet::empty())
+    }
+    spec fn wf_matrix(&self) -> bool {
+        self.wf_lgk() && self.wf_offset() && self.wf_window_len() && self.wf_table() && self.wf_rows() && self.wf_window_cols() && self.wf_empty()
+    }
+    spec fn tbl_nvb_ok(&self) -> bool { self.surprising_value_table is Some && self.surprising_value_table->0.num_valid_bits == 6 + self.lg_k }
+    spec fn windowed(&self) -> bool { self.sliding_window@.len() != 0 }
+    spec fn fic_ok(&self) -> bool {
+        &&& self.first_interesting_column <= self.window_offset
+        &&& forall|r: int, c: int| 0 <= r < self.k() && 0 <= c < self.first_interesting_column ==> self.mbit(r, c)
+    }
+    spec fn thresholds(&self) -> bool {
+        let c = self.num_coupons as int; let k = self.k(); let off = self.window_offset as int;
+        &&& !self.windowed() ==> off == 0 && 32 * c < 3 * k
+        &&& self.windowed() ==> 32 * c >= 3 * k && 8 * c < (27 + 8 * off) * k && (off > 0 ==> 8 * c >= (27 + 8 * (off - 1)) * k)
+    }
+    spec fn wf_nvb(&self) -> bool { self.num_coupons != 0 ==> self.tbl_nvb_ok() }
+    spec fn wf_sparse_count(&self) -> bool { self.num_coupons != 0 && !self.windowed() ==> self.surprising_value_table->0.num_items == self.num_coupons }
+    spec fn wf(&self) -> bool { self.wf_matrix() && self.fic_ok() && self.thresholds() && self.wf_nvb() && self.wf_sparse_count() }
+
+    // what the codec needs of a sketch: configuration ranges and the seed hash (with_seed asserts both)
+    spec fn wf_codec(&self) -> bool {
+        4 <= self.lg_k <= 26 && self.first_interesting_column <= 63 && self.seed_hash == seed_hash_spec(self.seed) && seed_hash_spec(self.seed) != 0
+    }
+    // the image view of a sketch, given its compressed payload
+    spec fn img(&self, c: CsView) -> CpcImg {
+        let has_table = c.table.len() > 0; let has_window = c.window.len() > 0; let ne = has_table || has_window; let hip = !self.merge_flag;
+        CpcImg { lg_k: self.lg_k, fic: self.first_interesting_column, seed_hash: self.seed_hash, has_hip: hip, has_table, has_window,
+                 num_coupons: self.num_coupons,
+                 num_sv: if has_table && has_window { c.num_entries } else if has_table { self.num_coupons } else { 0 },
+                 kxp: if ne && hip { f64_bits(self.kxp) } else { 0 }, hip: if ne && hip { f64_bits(self.hip_est_accum) } else { 0 },
+                 window: c.window.take(c.window_words), table: c.table.take(c.table_words) }
+    }
+
+    fn is_empty(&self) -> (r: bool) ensures r == (self.num_coupons == 0) {
+        self.num_coupons == 0
+    }
+
+    fn write_hip(&self, bytes: &mut SketchBytes)
+      ensures final(bytes)@ == old(bytes)@ + (le64_bytes(f64_bits(self.kxp)) + le64_bytes(f64_bits(self.hip_est_accum)))
+    {
+        bytes.write_f64_le(self.kxp);
+        bytes.write_f64_le(self.hip_est_accum);
+        proof { assert(bytes@ =~= old(bytes)@ + (le64_bytes(f64_bits(self.kxp)) + le64_bytes(f64_bits(self.hip_est_accum)))); }
+    }
+
+    fn serialize(&self) -> (r: Vec<u8>)
+      requires self.wf_codec()
+      ensures
+        /*@C12.cpc.preamble*/ r@ == enc_cpc(self.img(compressed_of(*self))),
+        /*@C11.cpc.serialize_decodes*/ cpc_decode(r@) == Some(self.img(compressed_of(*self))),
+    {
+        let mut bytes = SketchBytes::with_capacity(256);
+
+        let mut compressed = CompressedState::default();
+        compressed.compress(self);
+        let ghost c = compressed.cview();
+        let ghost v = self.img(c);
+        proof { lemma_k_bound(self.lg_k); }
+
+        let has_hip = !self.merge_flag;
+        let has_table = !compressed.table_data.is_empty();
+        let has_window = !compressed.window_data.is_empty();
+        let preamble_ints = make_preamble_ints(self.num_coupons, has_hip, has_table, has_window);
+        bytes.write_u8(preamble_ints);
+        bytes.write_u8(SERIAL_VERSION);
+        bytes.write_u8(Family::CPC.id);
+        bytes.write_u8(self.lg_k);
+        bytes.write_u8(self.first_interesting_column);
+        proof {
+            let h: u8 = if has_hip { 1 } else { 0 }; let t: u8 = if has_table { 1 } else { 0 }; let w: u8 = if has_window { 1 } else { 0 };
+            assert(h <= 1 && t <= 1 && w <= 1 ==> ((1u8 << 1u8) | (h << 2u8) | (t << 3u8) | (w << 4u8)) == 2 + 4 * h + 8 * t + 16 * w) by (bit_vector);
+        }
+        let flags = (1 << FLAG_COMPRESSED)
+            | (if has_hip { 1 } else { 0 } << FLAG_HAS_HIP)
+            | (if has_table { 1 } else { 0 } << FLAG_HAS_TABLE)
+            | (if has_window { 1 } else { 0 } << FLAG_HAS_WINDOW);
+        bytes.write_u8(flags);
+        debug_assert!(self.seed_hash == compute_seed_hash(self.seed));
+        bytes.write_u16_le(self.seed_hash);
+        proof { assert(bytes@ =~= enc_cpc_header(v)); }
+        let ghost h = bytes@;
+        if !self.is_empty() {
+            bytes.write_u32_le(self.num_coupons);
+            if has_table && has_window {
+                // if there is no window it is the same as number of coupons
+                bytes.write_u32_le(compressed.table_num_entries);
+                // HIP values can be in two different places in the sequence of fields
+                // this is the first HIP decision point
+                if has_hip {
+                    self.write_hip(&mut bytes);
+                }
+            }
+            proof { assert(bytes@ =~= h + (le32_bytes(v.num_coupons) + fp_sv(v) + fp_hip1(v))); }
+            if has_table {
+                debug_assert!(compressed.table_data_words <= u32::MAX as usize);
+                bytes.write_u32_le(compressed.table_data_words as u32);
+            }
+            if has_window {
+                debug_assert!(compressed.window_data_words <= u32::MAX as usize);
+                bytes.write_u32_le(compressed.window_data_words as u32);
+            }
+            // this is the second HIP decision point
+            if has_hip && !(has_table && has_window) {
+                self.write_hip(&mut bytes);
+            }
+            proof { assert(bytes@ =~= h + enc_cpc_fields(v)); }
+            let ghost hf = bytes@;
+            if has_window {
+                for i in 0..compressed.window_data_words
+                  invariant compressed.cview() == c, c.window_words <= c.window.len(), bytes@ == hf + enc_u32s(c.window.take(i as int)),
+                {
+                    bytes.write_u32_le(compressed.window_data[i]);
+                    proof {
+                        assert(c.window.take(i as int + 1) =~= c.window.take(i as int).push(c.window[i as int]));
+                        lemma_enc_u32s_push(c.window.take(i as int), c.window[i as int]);
+                        assert(bytes@ =~= hf + enc_u32s(c.window.take(i as int + 1)));
+                    }
+                }
+            } else {
+                proof { assert(c.window.take(0) =~= Seq::<u32>::empty()); assert(hf + enc_u32s(Seq::<u32>::empty()) =~= hf); }
+            }
+            let ghost hfw = bytes@;
+            if has_table {
+                for i in 0..compressed.table_data_words
+                  invariant compressed.cview() == c, c.table_words <= c.table.len(), bytes@ == hfw + enc_u32s(c.table.take(i as int)),
+                {
+                    bytes.write_u32_le(compressed.table_data[i]);
+                    proof {
+                        assert(c.table.take(i as int + 1) =~= c.table.take(i as int).push(c.table[i as int]));
+                        lemma_enc_u32s_push(c.table.take(i as int), c.table[i as int]);
+                        assert(bytes@ =~= hfw + enc_u32s(c.table.take(i as int + 1)));
+                    }
+                }
+            } else {
+                proof { assert(c.table.take(0) =~= Seq::<u32>::empty()); assert(hfw + enc_u32s(Seq::<u32>::empty()) =~= hfw); }
+            }
+            proof { assert(bytes@ =~= enc_cpc(v)); }
+        }
+        proof {
+            assert(bytes@ == enc_cpc(v));
+            assert(img_canon(v));
+            lemma_cpc_framing_roundtrip(v);
+        }
+        bytes.into_bytes()
+    }
+}
+
+
+// =====================================================================================================================
+// Readers.  cpc_header_spec is what BOTH readers are shown to compute from the preamble; it differs from the format spec only in
+// the preInts test, which the code keys on numCoupons > 0 (make_preamble_ints) while the field layout is keyed on the flags.
+// =====================================================================================================================
+spec fn cpc_pre_ints_as_checked(b: Seq<u8>) -> bool { b[0] == pre_ints_spec(fld_num_coupons(b) > 0, f_hip(b), f_table(b), f_window(b)) }
+spec fn cpc_hdr_ok(b: Seq<u8>) -> bool { cpc_magic_ok(b) && cpc_pre_len_ok(b) && cpc_ranges_ok(b) && cpc_pre_ints_as_checked(b) }
+ghost struct CpcHdr { lg_k: u8, merge_flag: bool, num_coupons: u32, hip_est_accum: f64 }
+spec fn hip_value(b: Seq<u8>) -> f64 { if hip_present(b) { f64_of_bits(fld_hip_bits(b)) } else { 0.0f64 } }
+spec fn kxp_value(b: Seq<u8>) -> f64 { if hip_present(b) { f64_of_bits(fld_kxp_bits(b)) } else { 0.0f64 } }
+spec fn cpc_header_spec(b: Seq<u8>) -> Option<CpcHdr> {
+    if cpc_hdr_ok(b) { Some(CpcHdr { lg_k: b[3], merge_flag: !f_hip(b), num_coupons: fld_num_coupons(b), hip_est_accum: hip_value(b) }) } else { None }
+}
+// the images the full parser accepts (given that the decompressor's preconditions are met)
+spec fn cpc_accepts(b: Seq<u8>, seed: u64) -> bool { cpc_hdr_ok(b) && cpc_payload_ok(b) && fld_seed_hash(b) == seed_hash_spec(seed) }
+
+proof fn lemma_flag_masks()
+  ensures (1u8 << 1u8) == 2u8, (1u8 << 2u8) == 4u8, (1u8 << 3u8) == 8u8, (1u8 << 4u8) == 16u8
+{
+    assert((1u8 << 1u8) == 2u8 && (1u8 << 2u8) == 4u8 && (1u8 << 3u8) == 8u8 && (1u8 << 4u8) == 16u8) by (bit_vector);
+}
+
+impl CpcSketch {
+    spec fn hdr(&self) -> CpcHdr { CpcHdr { lg_k: self.lg_k, merge_flag: self.merge_flag, num_coupons: self.num_coupons, hip_est_accum: self.hip_est_accum } }
+
+    fn deserialize(bytes: &[u8]) -> (r: Result<Self, Error>)
+      requires seed_hash_spec(DEFAULT_UPDATE_SEED) != 0     // a fact about the constant 9001, not about the bytes
+      ensures
+        /*@C13.cpc.default_seed*/ r matches Ok(s) ==> s.seed == DEFAULT_UPDATE_SEED && cpc_header_spec(bytes@) == Some(s.hdr()),
+    {
+        Self::deserialize_with_seed(bytes, DEFAULT_UPDATE_SEED)
+    }
+
+    fn deserialize_with_seed(bytes: &[u8], seed: u64) -> (r: Result<Self, Error>)
+      requires seed_hash_spec(seed) != 0     // documented panic of compute_seed_hash on the caller's seed; nothing is assumed of the BYTES
+      ensures
+        /*@C14.cpc.rejects_magic*/ r is Ok ==> cpc_magic_ok(bytes@),
+        /*@C14.cpc.rejects_truncated*/ r is Ok ==> cpc_pre_len_ok(bytes@) && cpc_payload_ok(bytes@),
+        /*@C14.cpc.rejects_ranges*/ r is Ok ==> cpc_ranges_ok(bytes@),
+        /*@C14.cpc.rejects_seed*/ r is Ok ==> fld_seed_hash(bytes@) == seed_hash_spec(seed),
+        /*@C13.cpc.pre_ints_as_checked*/ r is Ok ==> cpc_pre_ints_as_checked(bytes@),
+        // the format: fields after the header are present iff the sketch is non-empty
+        /*@C13.cpc.nonempty_flags*/ r is Ok ==> cpc_nonempty_ok(bytes@),
+        /*@C13.cpc.decodes*/ r is Ok && cpc_nonempty_ok(bytes@) ==> cpc_decode(bytes@) is Some,
+        /*@C13.cpc.fields*/ r matches Ok(s) ==> s.lg_k == bytes@[3] && s.first_interesting_column == bytes@[4] && s.seed_hash == fld_seed_hash(bytes@) && s.seed == seed
+            && s.num_coupons == fld_num_coupons(bytes@) && s.merge_flag == !f_hip(bytes@),
+        /*@C13.cpc.hip*/ r matches Ok(s) ==> s.kxp == kxp_value(bytes@) && s.hip_est_accum == hip_value(bytes@),
+        /*@C13.cpc.hip_bits*/ r matches Ok(s) ==> hip_present(bytes@) ==> f64_bits(s.kxp) == fld_kxp_bits(bytes@) && f64_bits(s.hip_est_accum) == fld_hip_bits(bytes@),
+        /*@C13.cpc.payload*/ r matches Ok(s) ==> s.surprising_value_table is Some && ({ let u = uncompressed_of(cs_of(bytes@), s.lg_k, s.num_coupons);
+              s.surprising_value_table->0 == u.table && s.sliding_window == u.window }),
+        /*@C13.cpc.header_spec*/ r matches Ok(s) ==> cpc_header_spec(bytes@) == Some(s.hdr()),
+        /*@C13.cpc.accepts*/ cpc_accepts(bytes@, seed) ==> r is Ok,
+        /*@C14.cpc.wf.lgk*/ r matches Ok(s) ==> s.wf_lgk(),
+        /*@C14.cpc.wf.window_len*/ r matches Ok(s) ==> s.wf_window_len(),
+        /*@C14.cpc.wf.table*/ r matches Ok(s) ==> s.wf_table(),
+        /*@C14.cpc.wf.rows*/ r matches Ok(s) ==> s.wf_rows(),
+        /*@C14.cpc.wf.empty*/ r matches Ok(s) ==> s.wf_empty(),
+        /*@C14.cpc.wf.nvb*/ r matches Ok(s) ==> s.wf_nvb(),
+        /*@C14.cpc.wf.sparse_count*/ r matches Ok(s) ==> s.wf_sparse_count(),
+        /*@C14.cpc.wf.windowed*/ r matches Ok(s) ==> (s.windowed() <==> 32 * (s.num_coupons as int) >= 3 * s.k()),
+        // NOT validated by the parser (known findings): numCoupons is unbounded, firstInterestingColumn is only checked <= 63
+        /*@C14.cpc.wf.offset*/ r matches Ok(s) ==> s.wf_offset(),
+        /*@C14.cpc.wf.window_cols*/ r matches Ok(s) ==> s.wf_window_cols(),
+        /*@C14.cpc.wf.thresholds*/ r matches Ok(s) ==> s.thresholds(),
+        /*@C14.cpc.wf.fic*/ r matches Ok(s) ==> s.fic_ok(),
+    {
+        let ghost b = bytes@;
+        let ghost mut pos: int = 0;
+        proof { lemma_flag_masks(); }
+        let mut cursor = SketchSlice::new(bytes);
+        let preamble_ints = cursor
+            .read_u8()
+            .vx_io("preamble_ints")?;
+        proof { lemma_read(b, pos, 1); pos = pos + 1; }
+        let serial_version = cursor
+            .read_u8()
+            .vx_io("serial_version")?;
+        proof { lemma_read(b, pos, 1); pos = pos + 1; }
+        let family_id = cursor.read_u8().vx_io("family_id")?;
+        proof { lemma_read(b, pos, 1); pos = pos + 1; }
+        Family::CPC.validate_id(family_id)?;
+        ensure_serial_version_is(SERIAL_VERSION, serial_version)?;
+
+        let lg_k = cursor.read_u8().vx_io("lg_k")?;
+        proof { lemma_read(b, pos, 1); pos = pos + 1; }
+        let first_interesting_column = cursor
+            .read_u8()
+            .vx_io("first_interesting_column")?;
+        proof { lemma_read(b, pos, 1); pos = pos + 1; }
+
+        let flags = cursor.read_u8().vx_io("flags")?;
+        proof { lemma_read(b, pos, 1); pos = pos + 1; }
+        let seed_hash = cursor
+            .read_u16_le()
+            .vx_io("seed_hash")?;
+        proof { lemma_read(b, pos, 2); pos = pos + 2; }
+        let is_compressed = flags & (1 << FLAG_COMPRESSED) != 0;
+        if !is_compressed {
+            return Err(Error::new(
+                ErrorKind::InvalidData,
+                "only compressed sketches are supported",
+            ));
+        }
+        let has_hip = flags & (1 << FLAG_HAS_HIP) != 0;
+        let has_table = flags & (1 << FLAG_HAS_TABLE) != 0;
+        let has_window = flags & (1 << FLAG_HAS_WINDOW) != 0;
+        proof { assert(has_hip == f_hip(b) && has_table == f_table(b) && has_window == f_window(b) && f_compressed(b)); }
+
+        let mut compressed = CompressedState::default();
+        let mut num_coupons = 0;
+        let mut kxp = 0.0;
+        let mut hip_est_accum = 0.0;
+
+        if has_table || has_window {
+            num_coupons = cursor
+                .read_u32_le()
+                .vx_io("num_coupons")?;
+            proof { lemma_read(b, pos, 4); pos = pos + 4; }
+            if has_table && has_window {
+                compressed.table_num_entries = cursor
+                    .read_u32_le()
+                    .vx_io("table_num_entries")?;
+                proof { lemma_read(b, pos, 4); pos = pos + 4; }
+                if has_hip {
+                    kxp = cursor.read_f64_le().vx_io("kxp")?;
+                    proof { lemma_read(b, pos, 8); pos = pos + 8; }
+                    hip_est_accum = cursor
+                        .read_f64_le()
+                        .vx_io("hip_est_accum")?;
+                    proof { lemma_read(b, pos, 8); pos = pos + 8; }
+                }
+            }
+            proof { assert(pos == off_svlen(b)); }
+            if has_table {
+                compressed.table_data_words = cursor
+                    .read_u32_le()
+                    .vx_io("table_data_words")?
+                    as usize;
+                proof { lemma_read(b, pos, 4); pos = pos + 4; }
+            }
+            if has_window {
+                compressed.window_data_words = cursor
+                    .read_u32_le()
+                    .vx_io("window_data_words")?
+                    as usize;
+                proof { lemma_read(b, pos, 4); pos = pos + 4; }
+            }
+            proof { assert(pos == off_hip2(b)); }
+            if has_hip && !(has_table && has_window) {
+                kxp = cursor.read_f64_le().vx_io("kxp")?;
+                proof { lemma_read(b, pos, 8); pos = pos + 8; }
+                hip_est_accum = cursor
+                    .read_f64_le()
+                    .vx_io("hip_est_accum")?;
+                proof { lemma_read(b, pos, 8); pos = pos + 8; }
+            }
+            proof {
+                assert(pos == pre_end(b));
+                assert(compressed.window_data_words == fld_w_len(b) && compressed.table_data_words == fld_sv_len(b));
+                assert(kxp == kxp_value(b) && hip_est_accum == hip_value(b));
+            }
+            let ghost pe = pos;
+            let ghost ww = compressed.window_data_words as int;
+            let ghost tw = compressed.table_data_words as int;
+            let ghost c0 = compressed;
+            if has_window {
+                for vx_u1 in 0..compressed.window_data_words
+                  invariant
+                    b == bytes@, pe == pre_end(b), ww == fld_w_len(b), tw == fld_sv_len(b), 0 <= pe, pe + 4 * vx_u1 <= b.len(),
+                    cursor.rem() == b.skip(pe + 4 * vx_u1),
+                    compressed.window_data_words == ww, compressed.table_data_words == tw, compressed.table_num_entries == c0.table_num_entries,
+                    compressed.table_data@ == c0.table_data@,
+                    /*@C14.cpc.alloc_words*/ compressed.window_data@.len() == vx_u1,
+                    compressed.window_data@ == dec_u32s(b.skip(pe), vx_u1 as int),
+                {
+                    let word = cursor
+                        .read_u32_le()
+                        .vx_io("window_data")?;
+                    proof { lemma_read(b, pe + 4 * vx_u1, 4); lemma_word_at(b, pe, vx_u1 as int); lemma_dec_u32s_push(b.skip(pe), vx_u1 as int); }
+                    compressed.window_data.push(word);
+                }
+                proof { pos = pe + 4 * ww; }
+            }
+            proof { assert(compressed.window_data@ =~= fld_window(b)); }
+            let ghost pw = pos;
+            if has_table {
+                for vx_u2 in 0..compressed.table_data_words
+                  invariant
+                    b == bytes@, pe == pre_end(b), ww == fld_w_len(b), tw == fld_sv_len(b), pw == pe + 4 * ww, 0 <= pw, pw + 4 * vx_u2 <= b.len(),
+                    cursor.rem() == b.skip(pw + 4 * vx_u2),
+                    compressed.window_data_words == ww, compressed.table_data_words == tw, compressed.table_num_entries == c0.table_num_entries,
+                    compressed.window_data@ == fld_window(b),
+                    /*@C14.cpc.alloc_words*/ compressed.table_data@.len() == vx_u2,
+                    compressed.table_data@ == dec_u32s(b.skip(pw), vx_u2 as int),
+                {
+                    let word = cursor
+                        .read_u32_le()
+                        .vx_io("table_data")?;
+                    proof { lemma_read(b, pw + 4 * vx_u2, 4); lemma_word_at(b, pw, vx_u2 as int); lemma_dec_u32s_push(b.skip(pw), vx_u2 as int); }
+                    compressed.table_data.push(word);
+                }
+                proof { pos = pw + 4 * tw; }
+            }
+            proof { assert(compressed.table_data@ =~= fld_table(b)); }
+            if !has_window {
+                compressed.table_num_entries = num_coupons;
+            }
+        } else {
+            proof { assert(compressed.window_data@ =~= fld_window(b)); assert(compressed.table_data@ =~= fld_table(b)); }
+        }
+        proof {
+            assert(compressed.cview() == cs_of(b));
+            // pushes are paid for by input bytes: no allocation is driven by svLengthInts / wLengthInts alone
+            assert(/*@C14.cpc.alloc_words*/ 4 * (compressed.window_data@.len() + compressed.table_data@.len()) <= b.len());
+        }
+
+        let expected_preamble_ints =
+            make_preamble_ints(num_coupons, has_hip, has_table, has_window);
+        ensure_preamble_longs_in(&[expected_preamble_ints], preamble_ints)?;
+        if seed_hash != compute_seed_hash(seed) {
+            return Err(Error::new(
+                ErrorKind::InvalidData,
+                format!(
+                    "seed hash mismatch: expected {}, got {}",
+                    compute_seed_hash(seed),
+                    seed_hash
+                ),
+            ));
+        }
+        if !(MIN_LG_K..=MAX_LG_K).contains(&lg_k) {
+            return Err(Error::invalid_argument(format!(
+                "lg_k out of range; got {}",
+                lg_k
+            )));
+        }
+        if first_interesting_column > 63 {
+            return Err(Error::invalid_argument(format!(
+                "first_interesting_column out of range; got {}",
+                first_interesting_column
+            )));
+        }
+        proof {
+            lemma_k_bound(lg_k);
+            if hip_present(b) { axiom_f64_bits_roundtrip(fld_kxp_bits(b)); axiom_f64_bits_roundtrip(fld_hip_bits(b)); }
+        }
+
+        let uncompressed = compressed.uncompress(lg_k, num_coupons);
+        proof { lemma_table_rows(uncompressed.table, lg_k); lemma_dco_small(lg_k, num_coupons); }
+        Ok(CpcSketch {
+            lg_k,
+            seed,
+            seed_hash,
+            first_interesting_column,
+            num_coupons,
+            surprising_value_table: Some(uncompressed.table),
+            window_offset: determine_correct_offset(lg_k, num_coupons),
+            sliding_window: uncompressed.window,
+            merge_flag: !has_hip,
+            kxp,
+            hip_est_accum,
+        })
+    }
+}
+
+// a well-formed table of 6 + lg_k valid bits only holds rows below k
+proof fn lemma_table_rows(t: PairTable, lg_k: u8)
+  requires t.wf(), t.num_valid_bits == 6 + lg_k, 4 <= lg_k <= 26
+  ensures forall|x: u32| #[trigger] t.items().contains(x) ==> (x >> 6) < pow2(lg_k as nat),
+    t.num_items == 0 ==> t.items() =~= ISet::<u32>::empty(),
+{
+    lemma_k_bound(lg_k); lemma2_to64(); lemma_pow2_adds(6, lg_k as nat);
+    let ss = t.slots@;
+    assert forall|x: u32| #[trigger] t.items().contains(x) implies (x >> 6) < pow2(lg_k as nat) by {
+        let i = choose|i: int| 0 <= i < ss.len() && ss[i] == x;
+        assert((ss[i] as int) < pow2((6 + lg_k) as nat));
+        let kk = pow2(lg_k as nat) as u32;
+        assert(kk <= 0x400_0000 && (x as u64) < 64 * (kk as u64) ==> (x >> 6) < kk) by (bit_vector);
+    }
+    if t.num_items == 0 {
+        assert forall|x: u32| !t.items().contains(x) by {
+            if t.items().contains(x) {
+                let i = choose|i: int| 0 <= i < ss.len() && ss[i] == x;
+                assert(pocc(ss).contains(i));
+                assert(pocc(ss).len() != 0) by { if pocc(ss).len() == 0 { pocc(ss).lemma_len0_is_empty(); } }
+            }
+        }
+    }
+}
+// below the sliding flavor the window has not moved
+proof fn lemma_dco_small(lg_k: u8, c: u32)
+  requires 4 <= lg_k <= 26
+  ensures 8 * (c as int) < 27 * pow2(lg_k as nat) ==> dco(lg_k, c) == 0
+{
+    lemma_k_bound(lg_k);
+    let k = pow2(lg_k as nat) as int; let t = 8 * (c as int) - 19 * k;
+    if 8 * (c as int) < 27 * k && t >= 0 {
+        assert(t / (8 * k) == 0) by (nonlinear_arith) requires 0 <= t < 8 * k, k > 0;
+    }
+}
+
+// =====================================================================================================================
+// cpc/wrapper.rs
+// =====================================================================================================================
+struct CpcWrapper {
+    lg_k: u8,
+    merge_flag: bool,
+    num_coupons: u32,
+    hip_est_accum: f64,
+}
+
+impl CpcWrapper {
+    spec fn hdr(&self) -> CpcHdr { CpcHdr { lg_k: self.lg_k, merge_flag: self.merge_flag, num_coupons: self.num_coupons, hip_est_accum: self.hip_est_accum } }
+
+    fn new(bytes: &[u8]) -> (r: Result<Self, Error>)
+      ensures
+        /*@C13.cpc.wrapper.accepts*/ /*@C14.cpc.wrapper.rejects*/ r is Ok <==> cpc_header_spec(bytes@) is Some,
+        /*@C13.cpc.wrapper.fields*/ r matches Ok(w) ==> cpc_header_spec(bytes@) == Some(w.hdr()),
+        /*@C13.cpc.wrapper.nonempty_flags*/ r is Ok ==> cpc_nonempty_ok(bytes@),
+    {
+        let ghost b = bytes@;
+        let ghost mut pos: int = 0;
+        proof { lemma_flag_masks(); }
+        let mut cursor = SketchSlice::new(bytes);
+        let preamble_ints = cursor
+            .read_u8()
+            .vx_io("preamble_ints")?;
+        proof { lemma_read(b, pos, 1); pos = pos + 1; }
+        let serial_version = cursor
+            .read_u8()
+            .vx_io("serial_version")?;
+        proof { lemma_read(b, pos, 1); pos = pos + 1; }
+        let family_id = cursor.read_u8().vx_io("family_id")?;
+        proof { lemma_read(b, pos, 1); pos = pos + 1; }
+        Family::CPC.validate_id(family_id)?;
+        ensure_serial_version_is(SERIAL_VERSION, serial_version)?;
+
+        let lg_k = cursor.read_u8().vx_io("lg_k")?;
+        proof { lemma_read(b, pos, 1); pos = pos + 1; }
+        let first_interesting_column = cursor
+            .read_u8()
+            .vx_io("first_interesting_column")?;
+        proof { lemma_read(b, pos, 1); pos = pos + 1; }
+        if !(MIN_LG_K..=MAX_LG_K).contains(&lg_k) {
+            return Err(Error::invalid_argument(format!(
+                "lg_k out of range; got {}",
+                lg_k
+            )));
+        }
+        if first_interesting_column > 63 {
+            return Err(Error::invalid_argument(format!(
+                "first_interesting_column out of range; got {}",
+                first_interesting_column
+            )));
+        }
+
+        let flags = cursor.read_u8().vx_io("flags")?;
+        proof { lemma_read(b, pos, 1); pos = pos + 1; }
+        let is_compressed = flags & (1 << FLAG_COMPRESSED) != 0;
+        if !is_compressed {
+            return Err(Error::new(
+                ErrorKind::InvalidData,
+                "only compressed sketches are supported",
+            ));
+        }
+        let has_hip = flags & (1 << FLAG_HAS_HIP) != 0;
+        let has_table = flags & (1 << FLAG_HAS_TABLE) != 0;
+        let has_window = flags & (1 << FLAG_HAS_WINDOW) != 0;
+        proof { assert(has_hip == f_hip(b) && has_table == f_table(b) && has_window == f_window(b) && f_compressed(b)); }
+
+        cursor
+            .read_u16_le()
+            .vx_io("seed_hash")?;
+        proof { lemma_read(b, pos, 2); pos = pos + 2; }
+
+        let mut num_coupons = 0;
+        let mut hip_est_accum = 0.0;
+
+        if has_table || has_window {
+            num_coupons = cursor
+                .read_u32_le()
+                .vx_io("num_coupons")?;
+            proof { lemma_read(b, pos, 4); pos = pos + 4; }
+            if has_table && has_window {
+                cursor
+                    .read_u32_le()
+                    .vx_io("table_num_entries")?;
+                proof { lemma_read(b, pos, 4); pos = pos + 4; }
+                if has_hip {
+                    cursor.read_f64_le().vx_io("kxp")?;
+                    proof { lemma_read(b, pos, 8); pos = pos + 8; }
+                    hip_est_accum = cursor
+                        .read_f64_le()
+                        .vx_io("hip_est_accum")?;
+                    proof { lemma_read(b, pos, 8); pos = pos + 8; }
+                }
+            }
+            proof { assert(pos == off_svlen(b)); }
+            if has_table {
+                cursor
+                    .read_u32_le()
+                    .vx_io("table_data_words")?;
+                proof { lemma_read(b, pos, 4); pos = pos + 4; }
+            }
+            if has_window {
+                cursor
+                    .read_u32_le()
+                    .vx_io("window_data_words")?;
+                proof { lemma_read(b, pos, 4); pos = pos + 4; }
+            }
+            proof { assert(pos == off_hip2(b)); }
+            if has_hip && !(has_table && has_window) {
+                cursor.read_f64_le().vx_io("kxp")?;
+                proof { lemma_read(b, pos, 8); pos = pos + 8; }
+                hip_est_accum = cursor
+                    .read_f64_le()
+                    .vx_io("hip_est_accum")?;
+                proof { lemma_read(b, pos, 8); pos = pos + 8; }
+            }
+        }
+        proof { assert(pos == pre_end(b)); assert(hip_est_accum == hip_value(b)); }
+
+        let expected_preamble_ints =
+            make_preamble_ints(num_coupons, has_hip, has_table, has_window);
+        ensure_preamble_longs_in(&[expected_preamble_ints], preamble_ints)?;
+        Ok(CpcWrapper {
+            lg_k,
+            merge_flag: !has_hip,
+            num_coupons,
+            hip_est_accum,
+        })
+    }
+}
+
+// the wrapper reads the same header as the full parser: whenever deserialize_with_seed returns Ok(s), CpcWrapper::new returns Ok(w) with the
+// same lg_k, merge_flag, num_coupons, hip_est_accum (both are shown to return cpc_header_spec).  The converse fails: the wrapper ignores the
+// seed hash, the word counts, the payload and whatever the decompressor rejects by panicking.
+proof fn lemma_wrapper_agrees(b: Seq<u8>, s: CpcSketch, w: CpcWrapper, wr_ok: bool)
+  requires cpc_header_spec(b) == Some(s.hdr()),                                // deserialize_with_seed: C13.cpc.header_spec
+           wr_ok <==> cpc_header_spec(b) is Some,                              // CpcWrapper::new: C13.cpc.wrapper.accepts
+           wr_ok ==> cpc_header_spec(b) == Some(w.hdr()),                      // CpcWrapper::new: C13.cpc.wrapper.fields
+  ensures /*@C13.cpc.wrapper_agrees*/ wr_ok && w.lg_k == s.lg_k && w.merge_flag == s.merge_flag && w.num_coupons == s.num_coupons && w.hip_est_accum == s.hip_est_accum
+{
 }
 
 }
